@@ -7,7 +7,8 @@ block of `put`, the RTO back-off of `timeout_callback` and the send guard of `ru
 source (`OnlVerif/Generated/TcpCC.lean`); this file adds, by hand, what is not in the translator's subset:
 
 * the dispatch on the class of the congestion-control object (`CCKind`);
-* `TCPPacketGenerator.put` (duplicate-ACK counting, which timers are stopped, fast retransmit, wake-up token),
+* `TCPPacketGenerator.put` (the early return on an overtaken ACK, duplicate-ACK counting, which timers are stopped, fast
+  retransmit, wake-up token),
   `timeout_callback`, `resend_packet`, and one iteration of the sending loop of `run` (`sendStep`);
 * the per-segment retransmission timers as a finite map `seq ↦ (expiry, wake)` with the semantics that C19 proves
   for `Timer`: a timer fires at its expiry unless stopped (= removed) first; `restart(τ)` from its own callback
@@ -325,19 +326,27 @@ def newAck (s : Sender α) (a : AckIn α) : Res α :=
     finishAck ((s.noteAck a).growWindow sample) a
   else .error .partialOp
 
+/-- `put` after its three guards (the `assert`, the model's own refusal of an ACK stamped in the future, the early return
+on an overtaken ACK): duplicate-ACK counting, fast retransmit / recovery, the new-ACK block -/
+def ackCore (s : Sender α) (a : AckIn α) : Res α :=
+  let s := s.countDup a.ackno
+  if s.dupack = 3 then
+    let r := s.thirdDup a.ackno
+    .ok r.1 r.2
+  else if s.dupack > 3 then
+    let r := s.moreDup a.ackno
+    .ok r.1 r.2
+  else if s.dupack = 0 then s.newAck a
+  else .ok s []
+
+/-- `put(ack)`.  `if ackno < self.last_ack: return`: an acknowledgement that was overtaken on the return path by a later
+cumulative one acknowledges nothing new and is not a duplicate either - the state is left as it is and nothing is sent
+(the test is the generated `TCPPacketGenerator.put_stale_guard`, `C17.stale_guard_generated_eq_model`) -/
 def ackStep (s : Sender α) (a : AckIn α) : Res α :=
   if a.fid < 10000 then .error .assertion
   else if s.now < a.ptime then .reject .fromFuture
-  else
-    let s := s.countDup a.ackno
-    if s.dupack = 3 then
-      let r := s.thirdDup a.ackno
-      .ok r.1 r.2
-    else if s.dupack > 3 then
-      let r := s.moreDup a.ackno
-      .ok r.1 r.2
-    else if s.dupack = 0 then s.newAck a
-    else .ok s []
+  else if a.ackno < s.last_ack then .ok s []
+  else s.ackCore a
 
 /-! ### `timeout_callback(packet_id)` -/
 
